@@ -52,6 +52,7 @@ func vfPipelineRun(sc vfScript) []map[string]any {
 	regsAny, _ := sc.Cfg["regs"].([]any)
 	knownAny, _ := sc.Cfg["known"].([]any)
 	withCancel, _ := vfBool(sc.Cfg, "cancel")
+	regAt, _ := sc.Cfg["regat"].(map[string]any) // device -> number of messages sealed before its chain key is announced
 	devOf, _ := sc.Cfg["devof"].(map[string]any)
 	ctrOf, _ := sc.Cfg["ctrof"].(map[string]any)
 	rnd := vfRand(int64(sc.ID))
@@ -107,8 +108,10 @@ func vfPipelineRun(sc vfScript) []map[string]any {
 		sdev[d] = omd.Device()
 		raw, _ := omd.Device().Raw()
 		byDevRaw[string(raw)] = d
-		anns[d], err = s.GetShareableChainKey(ctx0, g, romd.Member())
-		vfPMust(err, "announcement")
+		if k, _ := vfNum(regAt, d); k == 0 {
+			anns[d], err = s.GetShareableChainKey(ctx0, g, romd.Member())
+			vfPMust(err, "announcement")
+		}
 	}
 	// seal the messages of each device in counter order
 	msgs := map[string]*vfPMsg{}
@@ -121,12 +124,23 @@ func vfPipelineRun(sc vfScript) []map[string]any {
 		}
 		sort.Slice(mine, func(i, j int) bool { return ctrOf[mine[i]].(float64) < ctrOf[mine[j]].(float64) })
 		next := 1
+		late, _ := vfNum(regAt, d)
+		announce := func() {
+			// a late announcement: taken once `late` messages have been sealed (they can never be opened with it)
+			if anns[d] == nil && next-1 >= late {
+				var err error
+				anns[d], err = senders[d].GetShareableChainKey(ctx0, g, romd.Member())
+				vfPMust(err, "late announcement")
+			}
+		}
 		for _, a := range mine {
 			want := int(ctrOf[a].(float64))
 			for ; next < want; next++ { // counters skipped by the scenario: sealed but never delivered
+				announce()
 				_, err := senders[d].SealEnvelope(ctx0, g, []byte{})
 				vfPMust(err, "seal filler")
 			}
+			announce()
 			payload := vfPayload(rnd, sc.ID+next)
 			mb, _ := proto.Marshal(&protocoltypes.EncryptedMessage{Plaintext: payload})
 			env, err := senders[d].SealEnvelope(ctx0, g, mb)
@@ -140,6 +154,15 @@ func vfPipelineRun(sc vfScript) []map[string]any {
 			e.SetPayload(ob)
 			e.SetHash(cid.NewCidV1(cid.Raw, h))
 			msgs[a] = &vfPMsg{name: a, dev: d, ctr: want, env: env, payload: payload, entry: e}
+		}
+		for anns[d] == nil { // announced after everything the scenario delivers
+			if next-1 >= late {
+				announce()
+			} else {
+				_, err := senders[d].SealEnvelope(ctx0, g, []byte{})
+				vfPMust(err, "seal filler")
+				next++
+			}
 		}
 	}
 	for _, d := range knownAny {
@@ -276,7 +299,12 @@ func vfPipelineRun(sc vfScript) []map[string]any {
 	}
 	st := c.States()
 	drain()
-	fin := map[string]any{"ev": "final", "extra": extra, "livelock": extra >= 1000, "known": known(), "arrived": arrived, "win": win, "ctrof": ctrOf}
+	regOut := map[string]any{}
+	for _, d := range devNames {
+		k, _ := vfNum(regAt, d)
+		regOut[d] = k
+	}
+	fin := map[string]any{"ev": "final", "extra": extra, "livelock": extra >= 1000, "known": known(), "arrived": arrived, "win": win, "ctrof": ctrOf, "regat": regOut}
 	atgate, parkedT := []string{}, []string{}
 	th := map[string]any{}
 	for n, s := range st {
